@@ -90,6 +90,62 @@ func RunGasSweep(seed uint64, cases, warm, targets int, only string, onlyCase in
 			dead = A.Crashed
 		}
 		complete := 0
+		// the hooks of the block start are not transactions: what BeginBlock does must not depend
+		// on the block gas limit, and a limit it uses up itself must not take the node down. One
+		// block per case: BeginBlock, a transaction, EndBlock under every limit 0, 20, 40, … up to
+		// what BeginBlock consumes with room.
+		beginSweep := func() {
+			g.Height = sim.Height + 1
+			probe := g.Next(Weights{Transfer: 1})
+			b := sim.NextBlock([][]byte{probe.Bytes}, BlockOpts{DtSeconds: 1})
+			A.SaveBlock(b)
+			setGas(-1)
+			A.BeginBlock(b)
+			ref := pendingOf(A.App.VerifDeliverState())
+			baseGas := A.App.VerifConsumedGas()
+			A.DeliverTx(probe.Bytes)
+			A.EndBlock(b.Height)
+			if A.Crashed {
+				hit("app-closed-by-panic", c, fmt.Sprintf("height %d with unlimited gas", b.Height), hl.Lines)
+				dead = true
+				return
+			}
+			hl.Add("  begin-sweep height=%d begin-block-gas=%d probe=%s tx=%x", b.Height, baseGas, probe.Kind, probe.Bytes)
+			reported := false
+			for limit := int64(r.Intn(20)); limit <= baseGas+40; limit += 20 {
+				setGas(limit)
+				A.BeginBlock(b)
+				stage := "BeginBlock"
+				var got []kvp
+				if !A.Crashed {
+					got = pendingOf(A.App.VerifDeliverState())
+					stage = "DeliverTx after BeginBlock"
+					A.DeliverTx(probe.Bytes)
+				}
+				if !A.Crashed {
+					stage = "EndBlock"
+					A.EndBlock(b.Height)
+				}
+				res.Counters["begin_trials"]++
+				if A.Crashed {
+					hit("gas-limit-below-begin-block-closes-application", c, fmt.Sprintf("height %d: block gas limit %d (BeginBlock consumes %d with room): panic in %s; the application closed itself", b.Height, limit, baseGas, stage), hl.Lines)
+					setGas(-1)
+					if err := A.Restart(); err != nil {
+						dead = true
+					}
+					return
+				}
+				if !samePending(got, ref) && !reported {
+					reported = true
+					hit("begin-block-effect-depends-on-gas-limit", c, fmt.Sprintf("height %d: block gas limit %d (BeginBlock consumes %d with room): %s", b.Height, limit, baseGas, diffWrites(ref, got)), hl.Lines)
+				}
+			}
+			res.Counters["begin_sweeps"]++
+			setGas(-1)
+		}
+		if !dead {
+			beginSweep()
+		}
 		for ti := 0; ti < targets && !dead; ti++ {
 			g.Height = sim.Height + 1
 			// candidates, those of the kinds swept least often so far in this case first; up to four
@@ -178,6 +234,40 @@ func RunGasSweep(seed uint64, cases, warm, targets int, only string, onlyCase in
 						}
 					}
 				}
+				// the same for the mempool connection: a fresh check state (as after a Commit) per
+				// trial, each refusable operation of Validate / ProcessCheck / ProcessFee in turn the
+				// first one refused; CheckTx must answer, whatever it answers
+				var ctrace []int64
+				setGas(-1)
+				A.App.VerifResetCheckState()
+				if gs, ok := A.App.VerifCheckState().GetGasStore().(*storage.GasStore); ok {
+					gs.GasCalculator = gasTracer{gs.GasCalculator, &ctrace}
+				}
+				A.CheckTx(cand.Bytes)
+				if A.Crashed {
+					hit("app-closed-by-panic", c, fmt.Sprintf("height %d CheckTx of %s with unlimited gas", b.Height, cand.Kind), hl.Lines)
+					recover()
+					return false
+				}
+				var cpoints []int64
+				for _, v := range ctrace {
+					if len(cpoints) == 0 || v > cpoints[len(cpoints)-1] {
+						cpoints = append(cpoints, v)
+					}
+				}
+				for _, limit := range cpoints {
+					setGas(limit)
+					A.App.VerifResetCheckState()
+					A.CheckTx(cand.Bytes)
+					res.Counters["check_trials"]++
+					if A.Crashed {
+						hit("gas-window-closes-application-in-checktx-"+strings.ToLower(cand.Kind), c, fmt.Sprintf("height %d: CheckTx of %s on a check state with gas limit %d (the transaction's check needs %d) panicked; the application closed itself", b.Height, cand.Kind, limit, cpoints[len(cpoints)-1]), hl.Lines)
+						recover()
+						return false
+					}
+				}
+				setGas(-1)
+				A.App.VerifResetCheckState()
 				// the run with room once more: nothing of the trials may have stayed anywhere
 				code1, base1, ref1, _, _ := trial(-1)
 				if A.Crashed {
